@@ -516,6 +516,59 @@ def narr_rows(eng, v):
 
 
 # ------------------------------------------------ comprehensions over symbolic
+def skolemizer(bound, u0):
+    """Fresh constants created while the element of a comprehension was evaluated for the ARBITRARY position `bound` (results of
+    modular calls, havocked values: names `base!N` with N > u0) are values AT that position.  Before a fact / an element term
+    is generalised over the position (ForAll / Lambda over `bound`) every such constant c is replaced by c@(bound): a fresh
+    function of the position (Skolem form of "for every position there is such a value").  Leaving c a constant would assume
+    that ONE value serves every position (e.g. that all members of a list have the same length)."""
+    import re as _re
+
+    cache = {}
+    bound = list(bound)
+
+    def sk(e):
+        if not isinstance(e, z3.ExprRef):
+            return e
+        found, seen, stack = {}, set(), [e]
+        while stack:
+            x = stack.pop()
+            if x.get_id() in seen:
+                continue
+            seen.add(x.get_id())
+            if z3.is_quantifier(x):
+                stack.append(x.body())
+            elif z3.is_app(x):
+                if x.num_args() == 0 and x.decl().kind() == z3.Z3_OP_UNINTERPRETED:
+                    m = _re.search(r"!(\d+)$", x.decl().name())
+                    if m and int(m.group(1)) > u0 and not any(x.eq(b) for b in bound):
+                        found[x.get_id()] = x
+                else:
+                    stack.extend(x.children())
+        if not found:
+            return e
+        subs = []
+        for c in found.values():
+            nm = c.decl().name()
+            if nm not in cache:
+                cache[nm] = z3.Function(nm + "@", *[b.sort() for b in bound], c.sort())
+            subs.append((c, cache[nm](*bound)))
+        return z3.substitute(e, *subs)
+
+    return sk
+
+
+
+def _sk_value(sk, v):
+    """a scalar element value with the position-dependent constants in Skolem form (other values are handed on as they are)"""
+    if isinstance(v, Sym):
+        z = sk(v.z)
+        return v if z is v.z else Sym(z, v.kind)
+    if isinstance(v, tuple):
+        return tuple(_sk_value(sk, x) for x in v)
+    return v
+
+
 def symbolic_comprehension(eng, n, fr, kind, first):
     """[elt for x in S]  (no filter, one generator) over a symbolic-length S: the
     result is the pointwise image (z3 lambda array)."""
@@ -536,6 +589,11 @@ def symbolic_comprehension(eng, n, fr, kind, first):
             first.consumed = True
         return bulk
     i = z3.Int(fresh_name("ci"))
+    from .values import next_uid as _next_uid
+
+    u0 = _next_uid()
+    sk = skolemizer([i], u0)
+    eng.comp_skolem_u0 = u0  # for EXTRA_ELEMENT_HOOKS that generalise a non-scalar element themselves
     sub = Frame(parent=fr, globs=fr.globs, func=fr.func)
     eng.assign(gens[0].target, getter(Sym(i, "int")), sub)
     # the element expression is evaluated once, symbolically in the position i
@@ -558,18 +616,18 @@ def symbolic_comprehension(eng, n, fr, kind, first):
         # facts assumed while evaluating the element (e.g. proved bounds) are
         # re-added under the quantifier
         for h in new:
-            eng.pc.append(z3.ForAll([i], z3.Implies(z3.And(i >= 0, i < nz), h)))
+            eng.pc.append(z3.ForAll([i], z3.Implies(z3.And(i >= 0, i < nz), sk(h))))
     if isinstance(first, Iter):
         first.consumed = True
     if kind == "dict":
-        return _dict_from_pairs(eng, i, nz, kv, vv)
+        return _dict_from_pairs(eng, i, nz, _sk_value(sk, kv), _sk_value(sk, vv))
     if isinstance(vv, tuple):
         kinds = [kind_of(x) for x in vv]
         if any(k is None for k in kinds):
             raise Unsupported("comprehension element type")
         p = PList()
         p.items, p.kinds, p.tup, p.n = None, kinds, True, z3.simplify(nz)
-        p.cols = [z3.Lambda([i], to_z3(x, k)) for x, k in zip(vv, kinds)]
+        p.cols = [z3.Lambda([i], sk(to_z3(x, k))) for x, k in zip(vv, kinds)]
     else:
         k = kind_of(vv)
         proto = None
@@ -590,7 +648,7 @@ def symbolic_comprehension(eng, n, fr, kind, first):
             raise Unsupported(f"comprehension element of type {type(vv).__name__} over a symbolic sequence")
         p = PList()
         p.items, p.kinds, p.tup, p.n = None, [k], False, z3.simplify(nz)
-        p.cols = [z3.Lambda([i], to_z3(vv, k))]
+        p.cols = [z3.Lambda([i], sk(to_z3(vv, k)))]
         if proto is not None:
             p.proto = proto
     if kind == "gen":
@@ -615,6 +673,9 @@ def filtered_comprehension(eng, n, fr, kind, first):
     length, getter = as_sequence(eng, first)
     nz = length.z if isinstance(length, Sym) else zint(length)
     i = z3.Int(fresh_name("fi"))
+    from .values import next_uid as _next_uid
+
+    sk = skolemizer([i], _next_uid())
     in_range = z3.And(i >= 0, i < nz)
     sub = Frame(parent=fr, globs=fr.globs, func=fr.func)
     saved = list(eng.pc)
@@ -645,21 +706,23 @@ def filtered_comprehension(eng, n, fr, kind, first):
     for hs, gd in facts:  # facts established while evaluating (proved bounds ...) hold at every position where that part is evaluated
         gz = in_range if gd is True else z3.And(in_range, to_z3(gd, "bool"))
         for h in hs:
-            eng.pc.append(z3.ForAll([i], z3.Implies(gz, h)))
+            eng.pc.append(z3.ForAll([i], z3.Implies(sk(gz), sk(h))))
     if isinstance(first, Iter):
         first.consumed = True
     if cond is False:
         return Iter(PList([])) if kind == "gen" else PList([])
+    if isinstance(cond, Sym):
+        cond = _sk_value(sk, cond)
     vals = vv if isinstance(vv, tuple) else (vv,)
     kinds, terms, proto = [], [], None
     for x in vals:
         if x is None:
             kinds.append("oref"), terms.append(z3.IntVal(0))
         elif isinstance(x, _Op):
-            kinds.append("ref"), terms.append(x.z)
+            kinds.append("ref"), terms.append(sk(x.z))
             proto = x.proto if not isinstance(vv, tuple) else None
         elif kind_of(x) is not None:
-            kinds.append(kind_of(x)), terms.append(to_z3(x, kind_of(x)))
+            kinds.append(kind_of(x)), terms.append(sk(to_z3(x, kind_of(x))))
         else:
             raise Unsupported(f"filtered comprehension element of type {type(x).__name__} over a symbolic sequence")
     p = PList()
